@@ -216,7 +216,9 @@ Expected == Run(cfg.kinds, cfg.inp)         \* Sem: the list semantics of the ch
 \* no element is emitted on a link without demand having been signalled on it
 NoEmitWithoutDemand == \A l \in 0..K : sentEl[l] <= reqd[l]
 \* nothing is lost, duplicated or reordered between the stages: the sink sees a prefix of the semantics
-Conservation == IsPrefix(got, Expected.els)
+\* (under the real code's BatchNoDemand branch the batch stage may emit oversized chunks: any of Sem's
+\* defective chunkings is then admissible; without the defect this is the contract itself)
+Conservation == \E e \in Outs(cfg.kinds, cfg.inp, {}, Defects \cap {"BatchNoDemand"}) : IsPrefix(got, e.els)
 \* the sink handles at most one terminal signal; each link carries at most one completion
 SinkTerminalOnce == Len(term) <= 1
 CompleteOncePerLink == "DoubleComplete" \in Defects \/ \A l \in 0..K : sentCmp[l] <= 1
